@@ -86,6 +86,7 @@ void post_oracles(WorldRun &wr, const Pool &pool, const Snapshot &before, ExecCt
     out.push_back(v);
   }
   check_invariants(pool, out, where);
+  if (wr.plan->deep && out.size() == first) check_history_independence(pool, out, where);
   Snapshot after = snapshot(pool, wr.plan->deep != 0);
   size_t before_c14 = out.size();
   compare_snapshots(before, after, c.out, out, where);
